@@ -1,9 +1,10 @@
 package valtab
 
 import (
+	"calcsa/load"
 	"fmt"
-	"os"
 	"go/types"
+	"os"
 	"sort"
 	"strings"
 
@@ -385,6 +386,18 @@ func (t *tab) compare(tb map[Cell][]Outcome, order []Cell) {
 	t.symmetry(tb)
 	t.shiftRange(tb)
 	t.renderTotal()
+	t.payloadWrites()
+	// A9: index / slice expressions of the operator methods are guarded
+	{
+		key := "value / index and slice expressions of the operator methods are within bounds"
+		if len(t.unprovedIdx) == 0 {
+			t.s.OK("A9", key, "types/value/value.go", fmt.Sprintf("%d expressions on symbolic payloads, each guarded by a comparison on its path", t.nIdx))
+		}
+		for _, k := range load.SortedKeys(t.unprovedIdx) {
+			parts := strings.SplitN(t.unprovedIdx[k], "|", 2)
+			t.s.Bad("A9", k, parts[0], "no comparison on this path establishes the bound of "+parts[1]+": for some operand the expression is out of range and the Go runtime aborts the interpreter instead of the operator reporting an index error")
+		}
+	}
 }
 
 func orAlways(k string) string {
